@@ -7,7 +7,7 @@
     nodetest_table_sound axis_table_sound pred_eval_sound pred_outcome_sound
     substring_not_xpath ne_absent_not_xpath step_matches_eq_xp parser_rejects_outside
     select_eq_xp_step select_eq_xp_chain select_eq_xp_childpath select_eq_xp_union
-    select_eq_xp_nonpositional parser_accepts_subset_partial
+    select_eq_xp_nonpositional select_eq_xp_nonpositional_default parser_accepts_subset_partial
 -/
 import Genshi.Model.Path
 import Genshi.Model.PathParse
@@ -643,6 +643,29 @@ theorem select_eq_xp_nonpositional (p : LocPath) (ns : NsMap) (vs : Vars) (hp : 
   simp only [pathTest, List.map_cons, List.map_nil, mkMatcher]
   exact select_union ns vs (toXVars vs) tag attrs kids hok [p] _ _
     (.cons (operand_nonpositional p ns vs hp tag attrs kids hcl hnodes) .nil)
+
+/-- `Path.__init__` picks GenericStrategy for every path of two or more steps that
+    SimplePathStrategy does not support (a predicate, a wildcard or `node()` test somewhere) -/
+theorem chooses_generic (p : LocPath) (h2 : 2 ≤ p.length) (hs : simpleSupports p = false) :
+    chooseStrategy p = some .generic := by
+  have ho : strategyOrder = [.single, .simple, .generic] := by decide
+  have h1 : singleSupports p = false := by simp [singleSupports]; omega
+  simp [chooseStrategy, ho, List.find?, Strategy.supports, h1, hs]
+
+/-- `select_eq_xp_nonpositional` with the strategy `Path.__init__` picks by itself: e.g. every
+    path with an inner `//` (its expansion contains `node()`), or with a predicate, of two or
+    more steps. -/
+theorem select_eq_xp_nonpositional_default (p : LocPath) (ns : NsMap) (vs : Vars) (hp : StepsOk ns vs p)
+    (h2 : 2 ≤ p.length) (hs : simpleSupports p = false)
+    (tag : QName) (attrs : AttrList) (kids : List Node)
+    (hcl : (Node.elem tag attrs kids).clean = true)
+    (hnodes : AllNodes (NodeFor p ns vs) (.elem tag attrs kids)) :
+    select [p] ns vs (Node.elem tag attrs kids).flatten
+      = Ref.xpSelect [p] ns (toXVars vs) (.elem tag attrs kids) := by
+  have h := select_eq_xp_nonpositional p ns vs hp tag attrs kids hcl hnodes
+  unfold select at h ⊢
+  simp only [pathTest, List.map_cons, List.map_nil, chooses_generic p h2 hs, Option.getD_some] at h ⊢
+  exact h
 
 -- non-vacuity: `a//c[@k]` (child, descendant-or-self::node(), child with an attribute predicate)
 -- on <r><a><b><c k="1"/><c/></b></a><c k="2"/></r> selects only the first <c>
